@@ -151,7 +151,13 @@ def _check_one(case, ctx):
         rtol = max(rtol, 2e-6)  # float32 outputs
     if fam in ("width", "widthf", "peakwidth"):
         rtol = max(rtol, 1e-6)
-    msg = ops.compare(ra, rb, rtol, fam, "%s(%s x) vs %s(x)" % (name, T, name), atol_rel=(1e-7 if fam in ("width", "widthf", "peakwidth") else None))
+    rad = None
+    if fam in ("width", "widthf", "peakwidth"):
+        # compared through the radicand: rounding of the evaluation (float32 data under "width", float32 outputs of the peak
+        # family, summation order otherwise) times the scale of the radicand (2 (180/pi)^2 deg^2 for spreads, O(1) otherwise)
+        eps = 3e-5 if "width" in T else 1e-7 if fam == "peakwidth" else 1e-10
+        rad = eps * (2.0 * (180.0 / np.pi) ** 2 if name in ("dspr", "fdspr", "dpspr") else 0.1 if name == "gw" else 1.0)
+    msg = ops.compare(ra, rb, rtol, fam, "%s(%s x) vs %s(x)" % (name, T, name), atol_rel=(1e-7 if fam in ("width", "widthf", "peakwidth") else None), radicand=rad)
     if msg:
         raise Violation("layout:" + T, msg)
     ctx.nt(True)
